@@ -1,7 +1,7 @@
 //! C24 — Programs can only write memory they own.
 //!
-//! SPACE. All programs of length <= k over the 69-letter alphabet A24 (a letter = 1..3
-//! instructions; operands come from the progkit prelude plus a 12-instruction extra
+//! SPACE. All programs of length <= k over the 99-letter alphabet A24 (a letter = 1..3
+//! instructions; operands come from the progkit prelude plus a 13-instruction extra
 //! prelude loading MEM-8, the tx offset, lengths, a blob-id pointer, a balance-table
 //! pointer, a pointer to two alt_bn128 points and a non-zero store value), each executed in four
 //! contexts on the real
@@ -52,9 +52,14 @@
 //! {MemoryOverflow, UninitalizedMemoryAccess, MemoryOwnership, MemoryWriteOverlap} (plus
 //! the opcode's documented non-memory reasons) and memory must be unchanged. (SRDI writes
 //! only when the slot exists, so for it a missing panic is not reported; oracle 1 applies.)
+//! For every write opcode there are letters whose range STARTS in owned memory and ends
+//! outside it ("first chunk owned, later chunk not"): `@sp-8`/`@sp-4`/`srwq2@ssp` cross $sp
+//! into allocated-but-released stack (after `stk40of64`, `cfsi8` or a returned call), `@hp`
+//! letters longer than the callee's own allocation (`aloc8`/`aloc32`) cross the caller's
+//! saved $hp into the caller's heap. (LDC's destination is chosen by the VM, not the program.)
 //! Every ownership-checked write site of the interpreter has a letter: SB/SQW/SHW/SW,
 //! MCL/MCLI/MCP/MCPI, S256/K256, ECK1/ECR1/ECOP, the six wide-integer families, CCP, BLDD,
-//! CB, BHSH, CROO, SRWQ, SRDI; plus PSHL/POPL, CFEI/CFSI, ALOC, LDC, CALL, TR/TRO/SMO, RET/RETD
+//! CB, BHSH, CROO, SRWQ (1 and 2 slots), SRDI, SRDD; plus PSHL/POPL, CFEI/CFSI, ALOC, LDC, CALL, TR/TRO/SMO, RET/RETD
 //! and loads LB/LW.
 //! Keys: `C24:<OP>:no-panic:<kind>`, `C24:<OP>:wrong-reason:<kind>` (kind = unowned |
 //! never-allocated | beyond-mem | read-never-allocated | read-beyond-mem | overlap),
@@ -148,6 +153,7 @@ const R_IDX: u8 = 0x2e; // index of the first variable output
 const R_BLOB: u8 = 0x2f; // pointer to a blob id
 const R_BAL: u8 = 0x30; // value field of the first balance-table entry
 const V: u8 = 0x31; // non-zero value to store
+const R_TWO: u8 = 0x34; // the constant 2 (slot count)
 const R_DEEP: u8 = 0x33; // 0 until the middleman contract of `callee-deep` ran once
 const R_EC: u8 = 0x32; // pointer to two alt_bn128 G1 points (generator twice)
 
@@ -264,6 +270,7 @@ fn extra_prelude(tx_offset: u64) -> Vec<Instruction> {
         op::movi(R_BAL, (BAL_OFF + 32) as u32),
         op::movi(V, 0x2a5a5),
         op::addi(R_EC, r::DATA, off::END + 32),
+        op::movi(R_TWO, 2),
     ]
 }
 
@@ -289,6 +296,9 @@ fn alphabet(kind: Kind) -> Vec<Letter> {
         letter("cfsi8", vec![op::cfsi(8)]),
         letter("aloc8", vec![op::aloc(R_L8)]),
         letter("aloc4096", vec![op::aloc(R_L4096)]),
+        letter("aloc32", vec![op::aloc(R_L32)]),
+        // 40 bytes of owned stack below 24 bytes of allocated-but-released stack
+        letter("stk40of64", vec![op::cfei(64), op::cfsi(24)]),
         letter("pshl", vec![op::pshl(0b11)]),
         letter("popl", vec![op::popl(0b1)]),
         // stores by pointer class
@@ -372,6 +382,38 @@ fn alphabet(kind: Kind) -> Vec<Letter> {
         letter("srwq@sp-32", vec![op::subi(R, sp(), 32), op::srwq(R, R2, p, one())]),
         letter("srwq@fp", vec![op::srwq(fp(), R2, p, one())]),
         letter("srwq@hp", vec![op::srwq(hp(), R2, p, one())]),
+        // "first chunk owned, later chunk not": ranges that START inside the owned stack and
+        // cross $sp (allocated above $sp after stk40of64 / cfsi / a returned call) ...
+        letter("sw@sp-4", vec![op::subi(R, sp(), 4), op::sw(R, V, 0)]),
+        letter("mcl@sp-8x32", vec![op::subi(R, sp(), 8), op::mcl(R, R_L32)]),
+        letter("mcp@sp-8x32", vec![op::subi(R, sp(), 8), op::mcp(R, p, R_L32)]),
+        letter("s256@sp-8", vec![op::subi(R, sp(), 8), op::s256(R, p, R_L8)]),
+        letter("k256@sp-8", vec![op::subi(R, sp(), 8), op::k256(R, p, R_L8)]),
+        letter("wqop@sp-8", vec![op::subi(R, sp(), 8), op::wqop_args(R, p, p, add)]),
+        letter("wdop@sp-8", vec![op::subi(R, sp(), 8), op::wdop_args(R, p, p, add)]),
+        letter("eck1@sp-8", vec![op::subi(R, sp(), 8), op::eck1(R, p, p)]),
+        letter("ecop@sp-8", vec![op::subi(R, sp(), 8), op::ecop(R, z(), z(), R_EC)]),
+        letter("ccp@sp-8x32", vec![op::subi(R, sp(), 8), op::ccp(R, other, z(), R_L32)]),
+        letter("bldd@sp-8x32", vec![op::subi(R, sp(), 8), op::bldd(R, R_BLOB, z(), R_L32)]),
+        letter("cb@sp-8", vec![op::subi(R, sp(), 8), op::cb(R)]),
+        letter("bhsh@sp-8", vec![op::subi(R, sp(), 8), op::bhsh(R, z())]),
+        letter("croo@sp-8", vec![op::subi(R, sp(), 8), op::croo(R, other)]),
+        letter("srwq@sp-8", vec![op::subi(R, sp(), 8), op::srwq(R, R2, p, one())]),
+        letter("srwq2@ssp", vec![op::srwq(ssp(), R2, p, R_TWO)]),
+        letter("srwq2@sp-32", vec![op::subi(R, sp(), 32), op::srwq(R, R2, p, R_TWO)]),
+        letter("srdi@sp-8x16", vec![op::subi(R, sp(), 8), op::srdi(R, p, z(), 16)]),
+        letter("srdd@sp-8x32", vec![op::subi(R, sp(), 8), op::srdd(R, p, z(), R_L32)]),
+        // ... or START inside the owned heap (after aloc8 / aloc32 in a callee) and cross the
+        // caller's $hp into the caller's heap (fixed-size @hp letters above do so after aloc8)
+        letter("srwq2@hp", vec![op::srwq(hp(), R2, p, R_TWO)]),
+        letter("mcl@hpx32", vec![op::mcl(hp(), R_L32)]),
+        letter("mcp@hpx32", vec![op::mcp(hp(), p, R_L32)]),
+        letter("mcli@hpx16", vec![op::mcli(hp(), 16)]),
+        letter("mcpi@hpx16", vec![op::mcpi(hp(), p, 16)]),
+        letter("ccp@hpx32", vec![op::ccp(hp(), other, z(), R_L32)]),
+        letter("bldd@hpx32", vec![op::bldd(hp(), R_BLOB, z(), R_L32)]),
+        letter("srdi@hpx16", vec![op::srdi(hp(), p, z(), 16)]),
+        letter("srdd@hpx32", vec![op::srdd(hp(), p, z(), R_L32)]),
         // calls, transfers, returns
         letter("call", vec![op::call(other, z(), r::ASSET_BASE, cgas())]),
         letter("call+coin", vec![op::call(other, one(), asset, cgas())]),
@@ -696,6 +738,17 @@ fn spec_of(ins: &Instruction, regs: &[u64; 64]) -> Option<Spec> {
             let (a, b, _, i) = o.unpack();
             Some(Spec {
                 acc: vec![wr(g(a), i.to_u8() as u128), rd(g(b), 32)],
+                overlap_check: false,
+                others: Some(&[
+                    PanicReason::ExpectedInternalContext,
+                    PanicReason::StorageOutOfBounds,
+                ]),
+            })
+        }
+        Instruction::SRDD(o) => {
+            let (a, b, _, d) = o.unpack();
+            Some(Spec {
+                acc: vec![wr(g(a), g(d)), rd(g(b), 32)],
                 overlap_check: false,
                 others: Some(&[
                     PanicReason::ExpectedInternalContext,
@@ -1074,9 +1127,11 @@ fn run(env: &Env, seq: &[u64], slots: usize, acc: &mut Acc) -> bool {
             let mut key = [0u8; 32];
             key.copy_from_slice(&env.world.data[off::PATTERN as usize..off::PATTERN as usize + 32]);
             let slot = StorageSlot::new(Bytes32::new(key), Bytes32::new([0xEE; 32]));
+            key[31] += 1; // the next slot, read by the two-slot SRWQ letters
+            let slot2 = StorageSlot::new(Bytes32::new(key), Bytes32::new([0xDD; 32]));
             vm.as_mut()
                 .deploy_contract_with_id(
-                    &[slot],
+                    &[slot, slot2],
                     &code,
                     if env.kind == Kind::CalleeDeep { &B } else { &A },
                 )
@@ -1296,7 +1351,14 @@ fn run(env: &Env, seq: &[u64], slots: usize, acc: &mut Acc) -> bool {
                                 &case,
                             );
                         }
-                        if !runs.is_empty() {
+                        // a multi-slot SRWQ is specified slot by slot: slots written into
+                        // owned memory before the faulting slot are a don't-care (oracle 1
+                        // still confines them to owned memory)
+                        let multi_part = matches!(
+                            &ins,
+                            Some(Instruction::SRWQ(o)) if rb[o.unpack().3.to_u8() as usize] >= 2
+                        );
+                        if !runs.is_empty() && !multi_part {
                             acc.viol(
                                 format!("C24:{opname}:faulting-access-changed-memory"),
                                 format!(
@@ -1310,9 +1372,9 @@ fn run(env: &Env, seq: &[u64], slots: usize, acc: &mut Acc) -> bool {
                             );
                         }
                     }
-                    // SRDI writes only when the slot exists: absence of a panic is not
+                    // SRDI/SRDD write only when the slot exists: absence of a panic is not
                     // demanded for it (the write monitor still applies)
-                    _ if matches!(opc, Some(Opcode::SRDI)) => {}
+                    _ if matches!(opc, Some(Opcode::SRDI) | Some(Opcode::SRDD)) => {}
                     other => acc.viol(
                         format!("C24:{opname}:no-panic:{}", fault.kind()),
                         format!(
@@ -1434,6 +1496,7 @@ fn explore(ctx: &Ctx) {
             "reads of allocated memory above $sp (not never-allocated) and of foreign frames",
             "register contents after a panic",
             "zero-length operand ranges",
+            "slots a multi-slot SRWQ wrote into owned memory before the slot that faults",
         ]),
     );
 
